@@ -35,3 +35,8 @@ int lib_id_q(void) { return LIBID; }
 int api(int x) { lg(20, x, 0); return x; }
 long api_v2(long a, long b) { lg(21, a, b); return a * 1000 + b; }
 long plain_fn(long a) { lg(22, a, 0); return a + 7; }
+/* a function that reaches ANOTHER default-visibility symbol of its own library (calls through the PLT, a global through the GOT):
+ * which library's helper answers depends on how the library was loaded, not only on which entry point was looked up */
+int guest_via_count = 0;
+int helper_id(void) { return LIBID; }
+long via_helper(long x) { guest_via_count++; return x * 10 + helper_id(); }
